@@ -106,12 +106,19 @@ func c06(c *Ctx) {
 	c.ExpectAll("snapshot-triggers/file-requested", c.CallArgs(st, p.PlainCalls("litefs.(*DB).OpenLTXFile"), 1), "p4", 1, "the file opened is the one for the requested TXID", "")
 	c.Expect("snapshot-triggers/open-path", strings.Join(c.returnsOf("litefs.(*DB).OpenLTXFile"), ";"), pat(`litefs.OS.Open(p0.os, "OPENLTX", litefs.(*DB).LTXPath(p0, p1, p1))#0`), "OpenLTXFile opens the single-transaction file txID-txID", "")
 
+	c.acceptFamily()
+	c.chainResetFamily()
+}
+
+// acceptFamily: a received or forwarded file must extend the exact current position (C06, C09).
+func (c *Ctx) acceptFamily() {
+	p := c.P
+	isSnap := "ltx.(*Header).IsSnapshot(&new(ltx.Header))"
 	// ---- replica refuses ----
 	pl := "litefs.(*Store).processLTXStreamFrame"
 	db := "litefs.(*Store).CreateDBIfNotExists(p0, p2.Name)#0"
 	hdr := "ltx.DecodeHeader(p3)#0"
 	posEq := "(litefs.(*DB).Pos(" + db + ") == ltx.Pos{TXID: (" + hdr + ".MinTXID - 1), PostApplyChecksum: " + hdr + ".PreApplyChecksum})"
-	isSnap := "ltx.(*Header).IsSnapshot(&new(ltx.Header))"
 	for _, tgt := range []struct {
 		n string
 		m IM
@@ -175,6 +182,17 @@ func c06(c *Ctx) {
 	}, p.FailureReturn), 1, "the temp file is removed on every exit (deferred)", "")
 	c.Before("forward-refuse/header-read-first", wl, p.PlainCalls("litefs.(*DB).Pos"), p.PlainCalls("ltx.(*Header).UnmarshalBinary"), 1, "the header is decoded before the position is compared", "")
 
+}
+
+// chainResetFamily: a snapshot replaces the whole chain (C06, C09).
+func (c *Ctx) chainResetFamily() {
+	p := c.P
+	isSnap := "ltx.(*Header).IsSnapshot(&new(ltx.Header))"
+	pl := "litefs.(*Store).processLTXStreamFrame"
+	wl := "litefs.(*DB).WriteLTXFileAt"
+	db := "litefs.(*Store).CreateDBIfNotExists(p0, p2.Name)#0"
+	hdr := "ltx.DecodeHeader(p3)#0"
+	h2 := "out:ltx.(*Header).UnmarshalBinary(&new(ltx.Header), new([100]byte)[:100])"
 	// ---- chain reset ----
 	c.BeforeG("chain-reset/forward", wl, p.PlainCalls("litefs.OS.Rename"), p.PlainCalls("litefs.removeFilesExcept"), gs(GP(isSnap, false)), 1, "a snapshot removes the other LTX files before it is renamed into place (WriteLTXFileAt)", "C09: a received snapshot replaces the whole chain")
 	for _, in := range Instrs(c.F(wl), p.PlainCalls("litefs.removeFilesExcept")) {
